@@ -946,7 +946,7 @@ CORPUS: list[tuple[str, str, str]] = [
     ("enum_plain", "enum", "class En1(enum.Enum):\n    A = 1\n    B = 2\n"),
     ("async_ctx", "deco", "@contextlib.asynccontextmanager\nasync def de1(x: int) -> AsyncIterator[int]:\n    yield x\n"),
     ("deco_not_in_all", "deco", "__all__ = ['de1']\ndef dc2(f: Callable[..., int]) -> Callable[..., int]:\n    return f\n@dc2\ndef de1(x: int) -> int:\n    return x\n"),
-    ("alias_not_in_all", "alias", "__all__ = ['fa1']\nBl2: TypeAlias = list[int]\ndef fa1(x: Bl2) -> Bl2:\n    return x\n"),
+    ("alias_not_in_all", "alias", "__all__ = ['fa1']\nBl2: typing.TypeAlias = list[int]\ndef fa1(x: Bl2) -> Bl2:\n    return x\n"),
     ("namedtuple_default", "namedtuple", "class Nt1(NamedTuple):\n    x: int\n    y: str = 'd'\n"),
     ("namedtuple_coll_defaults", "namedtuple_func", "Nc1 = collections.namedtuple('Nc1', ['x', 'y'], defaults=[1])\n"),
     ("union_annotation", "fn", "def fn1(x: int | None, y: Optional[Union[int, str]] = None) -> int | None:\n    return x\n"),
